@@ -25,6 +25,9 @@ type DirEntry struct {
 	Src   *SrcFile `json:"src,omitempty"`
 	Text  string   `json:"text,omitempty"`
 	TextB []byte   `json:"textb,omitempty"`
+	// Perm: a permission fault, effective only when the tool runs without root's exemption (DirCase.Unpriv):
+	// "readonly" = 0444 (parses, cannot be written back), "unreadable" = 0000
+	Perm string `json:"perm,omitempty"`
 }
 
 // DirCase: a directory and the way the tool is run on it.
@@ -32,6 +35,8 @@ type DirCase struct {
 	Entries []DirEntry `json:"entries"`
 	Mode    string     `json:"mode"`              // cli-d | cli-p | cli-f-each | lib-each
 	Pattern string     `json:"pattern,omitempty"` // cli-p: glob relative to the directory ("" = *.go)
+	// Unpriv: the CLI runs as an unprivileged user that owns the directory (permission faults become real)
+	Unpriv bool `json:"unpriv,omitempty"`
 }
 
 func (e *DirEntry) content() (string, []Span) {
@@ -152,6 +157,15 @@ func genDirCase(t *rapid.T) *DirCase {
 		modes = []string{"cli-d", "cli-d", "cli-p", "cli-f-each", "lib-each"}
 	}
 	c.Mode = rapid.SampledFrom(modes).Draw(t, "mode")
+	if strings.HasPrefix(c.Mode, "cli-") && rapid.IntRange(0, 2).Draw(t, "unpriv") == 0 {
+		c.Unpriv = true
+		for i := range c.Entries {
+			e := &c.Entries[i]
+			if e.Kind != "subdir" && rapid.IntRange(0, 2).Draw(t, "permFault") == 0 {
+				e.Perm = rapid.SampledFrom([]string{"readonly", "readonly", "unreadable"}).Draw(t, "perm")
+			}
+		}
+	}
 	if c.Mode == "cli-p" {
 		c.Pattern = rapid.SampledFrom([]string{"", "", "*", "*.pb.*", "[a-m]*", "*_annotated*", "*.go*", "?*_*"}).Draw(t, "pattern")
 	}
@@ -194,6 +208,25 @@ func checkDir(c *DirCase) (msg string, badBeforeGood bool) {
 		files = append(files, orig{p, txt, spans, e})
 		names = append(names, e.Name)
 	}
+	unpriv := c.Unpriv && strings.HasPrefix(c.Mode, "cli-") && unprivHow() != ""
+	if unpriv {
+		if unprivHow() == "setuid" { // hand the whole directory to the unprivileged user
+			_ = filepath.Walk(dir, func(p string, _ os.FileInfo, _ error) error { return os.Lchown(p, nobodyID, nobodyID) })
+		}
+		for _, f := range files {
+			switch f.e.Perm {
+			case "readonly":
+				_ = os.Chmod(f.path, 0o444)
+			case "unreadable":
+				_ = os.Chmod(f.path, 0)
+			}
+		}
+		defer func() {
+			for _, f := range files {
+				_ = os.Chmod(f.path, 0o644)
+			}
+		}()
+	}
 	sort.Strings(names)
 	// is there an unprocessable entry sorting before an annotated file?
 	firstBad := ""
@@ -204,7 +237,7 @@ func checkDir(c *DirCase) (msg string, badBeforeGood bool) {
 				continue
 			}
 			txt, _ := e.content()
-			bad := e.Kind == "broken" || e.Kind == "nongo" || e.Kind == "nongo-valid" || e.Kind == "subdir" || e.Kind == "unexpected" || !isValidGo(txt)
+			bad := (unpriv && e.Perm != "") || e.Kind == "broken" || e.Kind == "nongo" || e.Kind == "nongo-valid" || e.Kind == "subdir" || e.Kind == "unexpected" || !isValidGo(txt)
 			if bad && firstBad == "" {
 				firstBad = n
 			}
@@ -213,9 +246,18 @@ func checkDir(c *DirCase) (msg string, badBeforeGood bool) {
 			}
 		}
 	}
+	// An orderly non-zero exit status is no crash: when the run met an unprocessable entry it is
+	// tolerated, and what happened to every file decides.
+	tolerated := func(err error) bool {
+		if _, ok := err.(*exitError); ok && firstBad != "" {
+			ev.Class("non-zero exit status with an unprocessable entry (tolerated; files decide)")
+			return true
+		}
+		return false
+	}
 	switch c.Mode {
 	case "cli-d":
-		if _, err := runInjector("cli-d", dir, ""); err != nil {
+		if _, err := runInjectorAs(unpriv, "cli-d", dir, ""); err != nil && !tolerated(err) {
 			return err.Error(), badBeforeGood
 		}
 	case "cli-p":
@@ -223,7 +265,7 @@ func checkDir(c *DirCase) (msg string, badBeforeGood bool) {
 		if c.Pattern != "" {
 			mode, pat = "cli-p-glob", c.Pattern
 		}
-		if _, err := runInjector(mode, dir, pat); err != nil {
+		if _, err := runInjectorAs(unpriv, mode, dir, pat); err != nil && !tolerated(err) {
 			return err.Error(), badBeforeGood
 		}
 	default:
@@ -237,12 +279,15 @@ func checkDir(c *DirCase) (msg string, badBeforeGood bool) {
 			} else if !strings.HasSuffix(f.path, ".go") {
 				continue // the library entry points are only ever called for .go files
 			}
-			if _, err := runInjector(mode, dir, f.path); err != nil {
+			if _, err := runInjectorAs(unpriv, mode, dir, f.path); err != nil && !tolerated(err) {
 				return fmt.Sprintf("%s: %v", f.e.Name, err), badBeforeGood
 			}
 		}
 	}
 	for _, f := range files {
+		if unpriv && f.e.Perm != "" {
+			_ = os.Chmod(f.path, 0o644)
+		}
 		b, err := os.ReadFile(f.path)
 		if err != nil {
 			return fmt.Sprintf("entry %s is gone after the run: %v", f.e.Name, err), badBeforeGood
@@ -260,6 +305,12 @@ func checkDir(c *DirCase) (msg string, badBeforeGood bool) {
 		case c.Mode == "cli-p" && c.Pattern != "" && !globMatch(c.Pattern, f.e.Name):
 			if out != f.text {
 				return fmt.Sprintf("file %s does not match the pattern %q but was modified: %s", f.e.Name, c.Pattern, firstDiff(f.text, out)), badBeforeGood
+			}
+		case unpriv && f.e.Perm != "":
+			// the tool can read but not write it, or not even read it: nothing can have been processed
+			ev.Class("perm-fault=" + f.e.Perm)
+			if out != f.text {
+				return fmt.Sprintf("file %s (%s for the invoking user) was modified: %s", f.e.Name, f.e.Perm, firstDiff(f.text, out)), badBeforeGood
 			}
 		case !isValidGo(f.text):
 			if out != f.text {
@@ -295,6 +346,9 @@ func TestC19(t *testing.T) {
 		c := genDirCase(t)
 		msg, nt := checkDir(c)
 		ev.Class("mode=" + c.Mode)
+		if c.Unpriv {
+			ev.Class("unprivileged-run:" + unprivHow())
+		}
 		if c.Pattern != "" {
 			ev.Class("glob=" + c.Pattern)
 		}
